@@ -46,7 +46,8 @@ def reader_ops(n, key):
     ops += [("nth", i) for i in P.nth_order(min(n, 6), key)]
     ops += [("nth", n), ("nth", n + 7), ("hint",), ("it", -1), ("hint",), ("it", -1)]
     if n > 1:
-        ops += [("nth", n - 1)]
+        # random access away from index 0, then the size hint and iteration of the same reader (which restart at 0)
+        ops += [("nth", n - 1), ("hint",), ("it", 1), ("nth", 1), ("hint",), ("it", -1)]
     return ops
 
 
